@@ -16,7 +16,7 @@ def sh(cmd, cwd=None, env=None, timeout=3600):
 def prep_slot(k):
     d = f'{ROOT}/slot{k}'
     os.makedirs(d, exist_ok=True)
-    sh(f'rsync -a --delete --exclude target --exclude .git /repo/ {d}/repo/')
+    sh(f'rsync -rlpgoD --checksum --delete --exclude target --exclude .git /repo/ {d}/repo/')
     # a complete scratch copy of /verif whose harness points at the scratch repo
     sh(f"rsync -a --delete --exclude target --exclude .git --exclude work --exclude replays --exclude evidence --exclude 'mutants/results*' /verif/ {d}/verif/")
     sh(f"grep -rl '\"/repo\"' {d}/verif/harness {d}/verif/harness-serde --include=Cargo.toml | xargs sed -i 's#\"/repo\"#\"{d}/repo\"#'")
@@ -24,7 +24,7 @@ def prep_slot(k):
 
 def run_mutant(m, d, props, scale):
     res = dict(id=m['id'], prop=m['prop'], note=m['note'], t=time.strftime('%H:%M:%S'))
-    sh(f'rsync -a --delete --exclude target --exclude .git /repo/ {d}/repo/')
+    sh(f'rsync -rlpgoD --checksum --delete --exclude target --exclude .git /repo/ {d}/repo/')
     f = f"{d}/repo/{m['file']}"
     s = open(f).read()
     if s.count(m['old']) != 1:
